@@ -780,6 +780,51 @@ impl<'a> Run<'a> {
             rep.capped(&format!("deadline inside pass {} (the passes before it are complete; see pass.{}.predicates for the number done)", job.name, job.name));
         }
     }
+    /// pass L: every pattern of length <= maxp over {a,b,%,_} against every text of length <= maxt over {a,b}
+    fn like_space(&mut self, fx: &mut Fx, rep: &mut Reporter, maxt: usize, maxp: usize) {
+        let was_expired = self.expired;
+        let texts = likespace::texts(maxt);
+        let pats = likespace::patterns(maxp);
+        rep.bound("pass.L-like-space", json!({"text_alphabet": "a b", "max_text_len": maxt, "texts": texts.len() - 1, "null_rows": 1, "pattern_alphabet": "a b % _", "max_pattern_len": maxp, "patterns": pats.len(), "operators": ["LIKE", "NOT LIKE"], "tables": likespace::LTABLES, "forms": MODES}));
+        if let Err(e) = likespace::load(&fx.db, &texts) {
+            if self.ctx.worker == 0 {
+                rep.case(1, false);
+                rep.violation("C14", "fixture", "C14/fixture/load-like-space", || json!({"likespace": true, "fixture": true, "maxt": maxt}), "the LIKE text tables load and read back", &e);
+            }
+            return;
+        }
+        'outer: for pat in &pats {
+            for neg in [false, true] {
+                self.idx += 1;
+                if self.expired {
+                    break 'outer;
+                }
+                if !self.ctx.mine(self.idx) {
+                    continue;
+                }
+                if self.ctx.expired() {
+                    self.expired = true;
+                    break 'outer;
+                }
+                rep.count("like_space.patterns", 1);
+                rep.count(if neg { "op.notlike" } else { "op.like" }, 1);
+                for tb in 0..likespace::LTABLES.len() {
+                    for mode in 0..MODES.len() {
+                        likespace::check(&fx.db, rep, &texts, maxt, tb, mode, pat, neg, fx.plant.as_deref());
+                    }
+                    if !neg {
+                        let plan = sqlh::explain(fx.db.db(), &format!("SELECT id FROM {} WHERE s LIKE {}", likespace::LTABLES[tb], lit_sql(&V::Text(pat.clone()))));
+                        rep.count(&format!("plan.{}.{}", likespace::LTABLES[tb], plan_class(&plan)), 1);
+                    }
+                }
+            }
+        }
+        if was_expired {
+            rep.capped("pass L-like-space not run (the deadline was hit in an earlier pass)");
+        } else if self.expired {
+            rep.capped("deadline inside pass L-like-space");
+        }
+    }
     fn list(&mut self, fx: &mut Fx, rep: &mut Reporter, job: &Job, preds: &[Expr]) {
         let was_expired = self.expired;
         for p in preds {
@@ -900,6 +945,253 @@ fn mini_core() -> Vec<Expr> {
     ]
 }
 
+// ---------------------------------------------------------------------------
+// L: the LIKE sub-space (every pattern x every text of a small alphabet)
+// ---------------------------------------------------------------------------
+/// Tables `lk(id INT PRIMARY KEY, s TEXT)` and `lx` (same, plus a secondary index on s) hold EVERY text of
+/// length <= maxt over {a,b} plus one NULL; every pattern of length <= maxp over {a,b,%,_} is evaluated as
+/// `s LIKE p` and `s NOT LIKE p` in both observation forms and compared per row with the recursive
+/// reference matcher `refmodel::sql::expr::like_match`.  Because texts and patterns are complete over the
+/// alphabet, every interplay of `%`, `_` and literals with repeated / overlapping text prefixes occurs
+/// (e.g. a partial match of the tail behind `%` that fails right where the real match starts).
+mod likespace {
+    use super::*;
+
+    pub const LTABLES: [&str; 2] = ["lk", "lx"];
+    const ALPHA_T: [char; 2] = ['a', 'b'];
+    const ALPHA_P: [char; 4] = ['a', 'b', '%', '_'];
+
+    /// all strings of length <= maxlen over `alpha`, shortest first
+    fn strings(alpha: &[char], maxlen: usize) -> Vec<String> {
+        let mut out = vec![String::new()];
+        let mut from = 0;
+        for _ in 0..maxlen {
+            let to = out.len();
+            for i in from..to {
+                for c in alpha {
+                    let mut s = out[i].clone();
+                    s.push(*c);
+                    out.push(s);
+                }
+            }
+            from = to;
+        }
+        out
+    }
+    /// row i (id i+1): every text, then one NULL
+    pub fn texts(maxt: usize) -> Vec<Option<String>> {
+        let mut v: Vec<Option<String>> = strings(&ALPHA_T, maxt).into_iter().map(Some).collect();
+        v.push(None);
+        v
+    }
+    pub fn patterns(maxp: usize) -> Vec<String> {
+        strings(&ALPHA_P, maxp)
+    }
+    /// pattern class for the signature: runs of literals -> L, runs of % -> %, every _ kept
+    pub fn pclass(p: &str) -> String {
+        let mut s = String::new();
+        for ch in p.chars() {
+            let k = match ch {
+                '%' => '%',
+                '_' => '_',
+                _ => 'L',
+            };
+            if k == '_' || !s.ends_with(k) {
+                s.push(k);
+            }
+        }
+        if s.is_empty() {
+            s.push_str("empty");
+        }
+        s
+    }
+    /// coarse pattern class for the signature: every maximal run of literals / `_` -> X, runs of % -> %
+    /// (`%X` suffix, `X%` prefix, `%X%` contains, `X%X`, `X` no wildcard sequence, ...)
+    pub fn sigclass(p: &str) -> String {
+        let mut s = String::new();
+        for ch in p.chars() {
+            let k = if ch == '%' { '%' } else { 'X' };
+            if !s.ends_with(k) {
+                s.push(k);
+            }
+        }
+        if s.is_empty() {
+            s.push_str("empty");
+        }
+        s
+    }
+    /// a matcher that commits to the first position where the tail behind a `%` starts to match and never
+    /// reconsiders (vacuity evidence only: pairs on which it differs from the reference need backtracking)
+    fn first_fit(t: &[char], p: &[char]) -> bool {
+        match p.first() {
+            None => t.is_empty(),
+            Some('%') => {
+                let rest = &p[1..];
+                match rest.first() {
+                    None => true,
+                    Some('%') => first_fit(t, rest),
+                    Some(c) => match (0..t.len()).find(|k| *c == '_' || t[*k] == *c) {
+                        Some(k) => first_fit(&t[k..], rest),
+                        None => false,
+                    },
+                }
+            }
+            Some('_') => !t.is_empty() && first_fit(&t[1..], &p[1..]),
+            Some(c) => t.first() == Some(c) && first_fit(&t[1..], &p[1..]),
+        }
+    }
+
+    pub fn load(db: &TestDb, texts: &[Option<String>]) -> Result<(), String> {
+        for tb in LTABLES {
+            for ddl in [format!("CREATE TABLE {tb}(id INT PRIMARY KEY, s TEXT)")].into_iter().chain(if tb == "lx" { Some("CREATE INDEX lxs ON lx(s)".to_string()) } else { None }) {
+                let r = db.exec(&ddl);
+                if !r.ok() {
+                    return Err(format!("{ddl}: {}", r.show()));
+                }
+            }
+            let rows: Vec<Vec<V>> = texts.iter().enumerate().map(|(i, t)| vec![V::Int(i as i64 + 1), t.as_ref().map(|s| V::Text(s.clone())).unwrap_or(V::Null)]).collect();
+            for chunk in rows.chunks(32) {
+                let vals: Vec<String> = chunk.iter().map(|r| format!("({})", r.iter().map(lit_sql).collect::<Vec<_>>().join(", "))).collect();
+                let sql = format!("INSERT INTO {tb} VALUES {}", vals.join(", "));
+                match db.exec(&sql) {
+                    Res::Affected(n, _) if n as usize == chunk.len() => {}
+                    o => return Err(format!("{}: {}", vcore::util::clip(&sql, 120), o.show())),
+                }
+            }
+            match db.exec(&format!("SELECT * FROM {tb}")) {
+                Res::Rows(got) => {
+                    if refmodel::val::bag(&got) != refmodel::val::bag(&rows) {
+                        return Err(format!("table {tb} does not read back as loaded: {}", vcore::util::clip(&refmodel::val::show_rows(&got), 300)));
+                    }
+                }
+                o => return Err(format!("SELECT * FROM {tb}: {}", o.show())),
+            }
+        }
+        Ok(())
+    }
+
+    fn bits(n: usize) -> u128 {
+        if n >= 128 {
+            u128::MAX
+        } else {
+            (1u128 << n) - 1
+        }
+    }
+    fn ids(m: u128) -> Vec<usize> {
+        (0..128).filter(|i| m >> i & 1 == 1).map(|i| i + 1).collect()
+    }
+
+    /// one (table, form, pattern, negated) evaluation; true = a violation was reported
+    pub fn check(db: &TestDb, rep: &mut Reporter, texts: &[Option<String>], maxt: usize, tb: usize, mode: usize, pat: &str, neg: bool, plant: Option<&str>) -> bool {
+        let n = texts.len();
+        let all = bits(n);
+        let pc: Vec<char> = pat.chars().collect();
+        let (mut et, mut ef, mut en) = (0u128, 0u128, 0u128);
+        let mut backtracking = 0u64;
+        for (i, t) in texts.iter().enumerate() {
+            match t {
+                None => en |= 1 << i,
+                Some(t) => {
+                    let m = like_match(t, pat);
+                    if m != first_fit(&t.chars().collect::<Vec<_>>(), &pc) {
+                        backtracking += 1;
+                    }
+                    if m != neg {
+                        et |= 1 << i
+                    } else {
+                        ef |= 1 << i
+                    }
+                }
+            }
+        }
+        let m = MODES[mode];
+        let opn = if neg { "notlike" } else { "like" };
+        let pred = format!("(s {}LIKE {})", if neg { "NOT " } else { "" }, lit_sql(&V::Text(pat.to_string())));
+        let sent = match plant {
+            // harness self-test only: `_` sent as a literal the texts never contain
+            Some("like_") => pred.replace('_', "c"),
+            _ => pred.clone(),
+        };
+        let sql = if mode == 0 { format!("SELECT id FROM {} WHERE {}", LTABLES[tb], sent) } else { format!("SELECT id, {} FROM {} WHERE 1=1", sent, LTABLES[tb]) };
+        let shape = format!("{opn}({},const:{})", if tb == 1 { "text_ixcol" } else { "text_col" }, sigclass(pat));
+        let case = || json!({"likespace": true, "maxt": maxt, "table": LTABLES[tb], "mode": m, "pattern": pat, "neg": neg, "sql": sql});
+        rep.count("like_space.queries", 1);
+        rep.count("like_space.rows_compared", n as u64);
+        rep.count("like_space.pairs_needing_backtracking", backtracking);
+        if pclass(pat).len() <= 3 {
+            rep.count(&format!("like_space.class.{}", pclass(pat)), 1);
+        }
+        rep.case(vcore::util::hash_of(&("likespace", tb, mode, pat, neg)), et != 0 && ef != 0);
+        let bad = |rep: &mut Reporter, class: &str, msg: &str| {
+            rep.outcome(&format!("{m}:{class}"));
+            rep.violation("C14", m, &format!("C14/{m}/{shape}/{class}"), case, "a row set / one truth value per row", msg);
+            true
+        };
+        let rows = match db.exec(&sql) {
+            Res::Rows(r) => r,
+            Res::Err(e) => return bad(rep, "error", &e),
+            Res::Panic(e) => return bad(rep, "panic", &e),
+            o => return bad(rep, "not-rows", &o.show()),
+        };
+        let (mut ot, mut of, mut on, mut seen) = (0u128, 0u128, 0u128, 0u128);
+        for r in &rows {
+            if r.len() != 1 + mode {
+                return bad(rep, "column-count", &format!("row {}", refmodel::val::show_row(r)));
+            }
+            let id = match &r[0] {
+                V::Int(i) if *i >= 1 && *i <= n as i64 => (*i - 1) as usize,
+                o => return bad(rep, "unknown-id", &o.show()),
+            };
+            if seen >> id & 1 == 1 {
+                return bad(rep, "duplicate-row", &format!("id {} returned twice", id + 1));
+            }
+            seen |= 1 << id;
+            if mode == 0 {
+                ot |= 1 << id;
+            } else if r[1].is_null() {
+                on |= 1 << id;
+            } else if loosely_equal_bool(&r[1], &V::Bool(true)) {
+                ot |= 1 << id;
+            } else if loosely_equal_bool(&r[1], &V::Bool(false)) {
+                of |= 1 << id;
+            } else {
+                return bad(rep, "not-a-truth-value", &format!("id {}: {}", id + 1, r[1].show()));
+            }
+        }
+        if mode == 0 {
+            of = all & !ot;
+        } else if seen != all {
+            return bad(rep, "row-count", &format!("{} of {n} rows returned with WHERE 1=1", rows.len()));
+        }
+        let wrong = if mode == 0 { ot ^ et } else { (ot ^ et) | (of ^ ef) | (on ^ en) };
+        if wrong == 0 {
+            rep.outcome(&format!("{m}:agrees"));
+            return false;
+        }
+        let cls = |t: u128, f: u128, nn: u128, i: usize| if t >> i & 1 == 1 { 'T' } else if f >> i & 1 == 1 { 'F' } else if nn >> i & 1 == 1 { 'N' } else { '?' };
+        let mut classes: BTreeMap<(char, char), u128> = BTreeMap::new();
+        for i in 0..n {
+            if wrong >> i & 1 == 1 {
+                *classes.entry((cls(et, ef, en, i), cls(ot, of, on, i))).or_insert(0) |= 1 << i;
+            }
+        }
+        for ((e, o), mask) in classes {
+            rep.outcome(&format!("{m}:{e}>{o}"));
+            let first = ids(mask)[0];
+            let txt = texts[first - 1].as_ref().map(|s| format!("'{s}'")).unwrap_or("NULL".into());
+            rep.violation(
+                "C14",
+                m,
+                &format!("C14/{m}/{shape}/{e}>{o}"),
+                case,
+                &format!("{e} on the rows with id {:?} (e.g. id {first}: s={txt})", ids(mask)),
+                &format!("{o} for these rows ({})", if mode == 0 { if o == 'T' { "row returned" } else { "row not returned" } } else { "value in the select list" }),
+            );
+        }
+        true
+    }
+}
+
 struct C14;
 
 impl Check for C14 {
@@ -947,6 +1239,9 @@ impl Check for C14 {
                 }
             }
         }
+        for c in ["like_space.patterns", "like_space.queries", "like_space.pairs_needing_backtracking", "like_space.class.%L", "like_space.class.L%L", "like_space.class.%L%", "like_space.class._", "like_space.class.%_L"] {
+            rep.expect_nonzero(c);
+        }
         rep.count("model_error_rows_skipped", 0);
         let tabs3 = [0usize, 1, 2]; // PK table, plain table, table with secondary indexes on a and c
         let pk = [0usize];
@@ -958,6 +1253,8 @@ impl Check for C14 {
         // ---- A: the full grammar -------------------------------------------------------------
         // A1: every atom and NOT atom, both tables, both forms, plans recorded
         run.trees(&mut fx, rep, &Job { name: "A1-atoms+NOT", tables: &tabs3, modes: &forms, explain: true, skip_known_broken: false }, &all, 0, true, true);
+        // L: the LIKE sub-space (all patterns x all texts over a small alphabet), both forms, LIKE and NOT LIKE
+        run.like_space(&mut fx, rep, ctx.tier.pick(5, 6), ctx.tier.pick(4, 5));
         // A2: IS [NOT] NULL over every atom
         let wrapped: Vec<Expr> = all.iter().flat_map(|a| [is_null(a.clone()), is_not_null(a.clone())]).collect();
         run.list(&mut fx, rep, &Job { name: "A2-isnull-of-atom", tables: &tabs3, modes: &forms, explain: false, skip_known_broken: false }, &wrapped);
@@ -1001,8 +1298,25 @@ impl Check for C14 {
                 return;
             }
         };
-        if case["fixture"].as_bool() == Some(true) {
+        if case["fixture"].as_bool() == Some(true) && case["likespace"].as_bool() != Some(true) {
             rep.case(0, false);
+            return;
+        }
+        if case["likespace"].as_bool() == Some(true) {
+            let maxt = case["maxt"].as_u64().unwrap_or(5) as usize;
+            let texts = likespace::texts(maxt);
+            if let Err(e) = likespace::load(&fx.db, &texts) {
+                rep.case(1, false);
+                rep.violation("C14", "fixture", "C14/fixture/load-like-space", || json!({"likespace": true, "fixture": true, "maxt": maxt}), "the LIKE text tables load and read back", &e);
+                return;
+            }
+            if case["fixture"].as_bool() == Some(true) {
+                rep.case(1, false);
+                return;
+            }
+            let tb = likespace::LTABLES.iter().position(|t| Some(*t) == case["table"].as_str()).unwrap_or(0);
+            let mode = MODES.iter().position(|t| Some(*t) == case["mode"].as_str()).unwrap_or(0);
+            likespace::check(&fx.db, rep, &texts, maxt, tb, mode, case["pattern"].as_str().unwrap_or(""), case["neg"].as_bool().unwrap_or(false), fx.plant.as_deref());
             return;
         }
         let Some(p) = dec(&case["pred"]) else {
